@@ -293,7 +293,11 @@ def main():
         res.lines += r.lines
     rng = random.Random(common.seed() * 49979687 + 4)
     nrand = random_sequences(v, rng, 400 if quick else 4000)
+    # positional-only / *args / keyword-only / **kwargs argument stores (FdlStore states) through every codec
+    from harness import storecodec  # pylint: disable=g-import-not-at-top
+    sc = storecodec.run(v, wd, quick, storecodec.COPY_CODECS)
   v.coverage.update({
+      'store_states_round_tripped': sc,
       'states': res.distinct, 'transitions': res.generated,
       'traces_validated_against_impl': totals['lines'] + nrand,
       'evaluations': totals['lines'] + nrand, 'distinct_nontrivial': totals['nontrivial'],
